@@ -3,7 +3,7 @@ import JunoModel.C03.Model
 /-!
 Line-protocol driver for the C03 model (`lake build c03drv`).
 
-  cfg leaffix <0|1>                 which variant of the new backend is modelled (see `Cfg`)
+  cfg leaffix|sysprobefix <0|1>     which variant of the new backend is modelled (see `Cfg`)
   univ a|k|c <hex>*                 universe of addresses / slots / class hashes for `dump`
   store <blockhash> <p1|p2> <diff>  diff in the token form of harness/cmd/c03/enc.go
   revert
@@ -123,8 +123,12 @@ def step (s : DState) (line : String) : DState × String :=
   match words line with
   | ["reset"] => ({ DState.init with cfg := s.cfg, addrs := s.addrs, slots := s.slots, classes := s.classes }, "ok")
   | ["cfg", "leaffix", b] =>
-    if b == "0" then ({ s with cfg := ⟨false⟩ }, "ok")
-    else if b == "1" then ({ s with cfg := ⟨true⟩ }, "ok")
+    if b == "0" then ({ s with cfg := { s.cfg with leafFix := false } }, "ok")
+    else if b == "1" then ({ s with cfg := { s.cfg with leafFix := true } }, "ok")
+    else (s, "bad-op")
+  | ["cfg", "sysprobefix", b] =>
+    if b == "0" then ({ s with cfg := { s.cfg with sysProbeFix := false } }, "ok")
+    else if b == "1" then ({ s with cfg := { s.cfg with sysProbeFix := true } }, "ok")
     else (s, "bad-op")
   | "univ" :: tag :: ws =>
     match hexList ws with
